@@ -899,12 +899,37 @@ impl Worker {
                             }
                             solo.push(r);
                         }
+                        let mut differs = false;
                         for (j, &k) in idx.iter().enumerate() {
                             if solo[j] != sts[i].responses[k] {
                                 find!("C09", i, "interference", Some(node.steps[k].aop.show()),
                                     "step {k} ({}) answered {:?} when other clients' requests were interleaved, but {:?} when client {} ran alone",
                                     node.steps[k].aop.show(), sts[i].responses[k], solo[j], (b'A' + c) as char);
+                                differs = true;
                                 break;
+                            }
+                        }
+                        // ... and so must its reads: every GetChildVersion / GetSnapshot the client can
+                        // ask in this state (ids of other clients included) answers the same alone
+                        if !differs {
+                            for (cls, sid) in probe_ids[&c].clone() {
+                                let r = self.suts[i].apply(&SymOp::GetChild { c, parent: sid }, UNKNOWN_SID);
+                                stats.probes += 1;
+                                if let Some(r0) = gc_answers[i].get(&(c, sid)) {
+                                    if *r0 != r {
+                                        find!("C09", i, "read-interference", Some(format!("GetChild({},{})", (b'A' + c) as char, cls.show())),
+                                            "GetChildVersion answered {:?} with other clients' requests interleaved, but {:?} when client {} ran alone", r0, r, (b'A' + c) as char);
+                                        break;
+                                    }
+                                }
+                            }
+                            let r = self.suts[i].apply(&SymOp::GetSnapshot { c }, UNKNOWN_SID);
+                            stats.probes += 1;
+                            if let Some(r0) = gs_answers[i].get(&c) {
+                                if *r0 != r {
+                                    find!("C09", i, "read-interference", Some(format!("GetSnapshot({})", (b'A' + c) as char)),
+                                        "GetSnapshot answered {:?} with other clients' requests interleaved, but {:?} when client {} ran alone", r0, r, (b'A' + c) as char);
+                                }
                             }
                         }
                     }
@@ -1204,6 +1229,20 @@ impl Worker {
     fn own_oracle(&mut self, i: usize, acc: &Accepted, sdump: &SymDump, tag: &str, stats: &mut Stats) -> Vec<(&'static str, String, String)> {
         let mut out: Vec<(&'static str, String, String)> = vec![];
         for (c, list) in acc.per_client.clone() {
+            if self.mon("C08") {
+                // "returns the child of p if one exists": a version acknowledged on parent p is
+                // the child of p, whatever the implementation stored
+                for (id, parent, data) in &list {
+                    stats.eval("C08");
+                    let r = self.suts[i].apply(&SymOp::GetChild { c, parent: *parent }, UNKNOWN_SID);
+                    stats.probes += 1;
+                    let ok = matches!(&r, SResp::GcFound { id: i2, parent: p2, data: d2 } if i2 == id && p2 == parent && d2 == data);
+                    if !ok {
+                        out.push(("C08", "acknowledged-child-not-returned".into(), format!(
+                            "version #{id} was acknowledged as the child of #{parent}; GetChildVersion(#{parent}) answers {:?}{tag}", r)));
+                    }
+                }
+            }
             if self.mon("C07") {
                 for (id, parent, data) in &list {
                     stats.eval("C07");
@@ -1322,7 +1361,7 @@ fn spec_from_name(n: &str) -> Option<SutSpec> {
 pub fn params_to_json(p: &SeqParams) -> Value {
     json!({
         "n_clients": p.alphabet.n_clients, "anc_max": p.alphabet.anc_max, "foreign": p.alphabet.foreign,
-        "dup": p.alphabet.dup_payload, "snapshots": p.alphabet.snapshots, "ages": p.alphabet.ages,
+        "dup": p.alphabet.dup_payload, "big": p.alphabet.big_payload, "snapshots": p.alphabet.snapshots, "ages": p.alphabet.ages,
         "days": p.cfg.days, "versions": p.cfg.versions,
         "specs": p.specs.iter().map(|s| s.name()).collect::<Vec<_>>(),
         "max_depth": p.max_depth, "unmerged_depth": p.unmerged_depth, "monitors": p.monitors,
@@ -1340,6 +1379,7 @@ pub fn params_from_json(v: &Value) -> SeqParams {
             dup_payload: v["dup"].as_bool().unwrap(),
             snapshots: v["snapshots"].as_bool().unwrap(),
             ages: v["ages"].as_array().unwrap().iter().map(|x| x.as_i64().unwrap()).collect(),
+            big_payload: v["big"].as_bool().unwrap_or(false),
         },
         cfg: Config { days: v["days"].as_i64().unwrap(), versions: v["versions"].as_u64().unwrap() as u32 },
         specs: v["specs"].as_array().unwrap().iter().filter_map(|x| spec_from_name(x.as_str().unwrap())).collect(),
